@@ -366,15 +366,7 @@ def rec_executor_class():
 def _sys_tick_checks(R, ex, t):
     """C01/C02 snapshot rules under the real schedulers."""
     from eudoxia.workload import OperatorState as S
-    seen = {}
-    for pl in ex.pools:
-        for c in list(pl.active_containers) + list(pl.suspending_containers):
-            for o in c.operators:
-                if id(o) in seen:
-                    raise Violation("C02.two_live_containers", {"op": R.okey(o), "containers": [seen[id(o)], c.container_id]}, t)
-                seen[id(o)] = c.container_id
-                if o.state() not in (S.ASSIGNED, S.RUNNING, S.SUSPENDING, S.COMPLETED):
-                    raise Violation("C02.live_state", {"op": R.okey(o), "state": o.state().value, "container": c.container_id}, t)
+    exdrv.check_live(ex, t, okey=R.okey)
     if R.declared_differs is not None:
         raise Violation("C01.parents_changed", dict(R.declared_differs, when="on arrival"), t)
     exdrv.check_orphans(ex, R.open_pipes(), t, okey=R.okey)
